@@ -421,7 +421,8 @@ def extern(state, *symbol_name: int):
         if symbol.name.lower() == "all":
             for name in state["internal_symbols_list"]:
                 compiler.declare_external_symbol(symbol, name, state)
-            state["extern_all"] = True
+            # Remembered as the location reported for symbols exported later on
+            state["extern_all"] = symbol
         else:
             compiler.declare_external_symbol(symbol, symbol.name, state)
 
